@@ -14,7 +14,7 @@
      ConfigProofs.validate_table_matches_source).
    * json.MarshalIndent(c, "", "  ") for this struct: byte-exact text (`encode`), including the
      string escaping of encoding/json (quotes, backslash, control characters, <>&, U+2028/9,
-     invalid UTF-8 -> �) and the float formatting ('f' / 'e' switch at 1e-6 and 1e21).
+     invalid UTF-8 -> U+FFFD) and the float formatting ('f' / 'e' switch at 1e-6 and 1e21).
    * json.Unmarshal(data, &cfg): a full JSON parser (`pv`: objects, arrays, strings with all
      escapes and surrogate pairs, numbers, literals, whitespace, trailing-data check) followed by
      the struct decoding rules of encoding/json (`decode`): case-insensitive key match
@@ -252,103 +252,32 @@ Definition in_range (c : config) : bool :=
 
 (* ---------- Validate ---------- *)
 
-(* `x <= 1.0` on float64 (false for NaN) *)
-Definition f_le1 (f : fval) : bool :=
+(* `x > 1.0` on float64 (false for NaN) *)
+Definition f_gt1 (f : fval) : bool :=
   match f with
   | FNaN => false
-  | FInf neg => neg
-  | FNum true _ _ => true
+  | FInf neg => negb neg
+  | FNum true _ _ => false
   | FNum false m e =>
-      if (0 <=? e)%Z then (Z.of_N m * 10 ^ e <=? 1)%Z
-      else (Z.of_N m <=? 10 ^ (- e))%Z
+      if (0 <=? e)%Z then (1 <? Z.of_N m * 10 ^ e)%Z
+      else (10 ^ (- e) <? Z.of_N m)%Z
   end.
+
+(* math.IsInf(x, 0) *)
+Definition f_isinf (f : fval) : bool := match f with FInf _ => true | _ => false end.
 
 Inductive operand := OLit (z : Z) | OFld (f : fld).
 Inductive atom :=
   | ALe (f : fld) (o : operand)      (* c.F <= o *)
   | AGe (f : fld) (o : operand)      (* c.F >= o *)
+  | AGt (f : fld) (o : operand)      (* c.F > o *)
   | AEmpty (f : fld)                 (* c.F == "" *)
-  | AFloatLe1 (f : fld).             (* c.F <= 1.0 *)
+  | ANotUtf8 (f : fld)               (* !utf8.ValidString(c.F) *)
+  | AFloatNotGt1 (f : fld)           (* !(c.F > 1.0) *)
+  | AFloatIsInf (f : fld).           (* math.IsInf(c.F, 0) *)
 
 Definition eval_operand (c : config) (o : operand) : Z :=
   match o with OLit z => z | OFld f => get_int f c end.
-
-Definition eval_atom (c : config) (a : atom) : bool :=
-  match a with
-  | ALe f o => (get_int f c <=? eval_operand c o)%Z
-  | AGe f o => (get_int f c >=? eval_operand c o)%Z
-  | AEmpty f => is_nil (get_str f c)
-  | AFloatLe1 _ => f_le1 (c_compaction_ratio c)
-  end.
-
-(* Config.Validate: one entry per `if a1 || a2 { return error }`, in source order *)
-Definition checks : list (list atom) :=
-  [ [ALe F_version (OLit 0)];
-    [AEmpty F_wal_dir];
-    [AEmpty F_sst_dir];
-    [ALe F_memtable_size (OLit 0)];
-    [ALe F_max_memtables (OLit 0)];
-    [ALe F_sstable_block_size (OLit 0)];
-    [ALe F_sstable_index_size (OLit 0)];
-    [ALe F_compaction_levels (OLit 0)];
-    [AFloatLe1 F_compaction_ratio];
-    [ALe F_read_only_tx_ttl (OLit 0)];
-    [ALe F_read_write_tx_ttl (OLit 0)];
-    [ALe F_idle_tx_timeout (OLit 0)];
-    [ALe F_tx_cleanup_interval (OLit 0)];
-    [ALe F_tx_warning_threshold (OLit 0); AGe F_tx_warning_threshold (OLit 100)];
-    [ALe F_tx_critical_threshold (OFld F_tx_warning_threshold); AGe F_tx_critical_threshold (OLit 100)] ].
-
-Definition atom_field (a : atom) : fld :=
-  match a with ALe f _ | AGe f _ | AEmpty f | AFloatLe1 f => f end.
-
-(* the failing check is identified by the field its first comparison talks about *)
-Fixpoint first_failing (c : config) (l : list (list atom)) : option fld :=
-  match l with
-  | [] => None
-  | ck :: r =>
-      if existsb (eval_atom c) ck
-      then match ck with a :: _ => Some (atom_field a) | [] => None end
-      else first_failing c r
-  end.
-
-(* None = valid; Some f = "invalid configuration", the check on field f failed *)
-Definition validate (c : config) : option fld := first_failing c checks.
-
-(* ---------- decimal integers ---------- *)
-
-Fixpoint uint_bytes (d : uint) : bytes :=
-  match d with
-  | Nil => []
-  | D0 r => 48 :: uint_bytes r | D1 r => 49 :: uint_bytes r | D2 r => 50 :: uint_bytes r
-  | D3 r => 51 :: uint_bytes r | D4 r => 52 :: uint_bytes r | D5 r => 53 :: uint_bytes r
-  | D6 r => 54 :: uint_bytes r | D7 r => 55 :: uint_bytes r | D8 r => 56 :: uint_bytes r
-  | D9 r => 57 :: uint_bytes r
-  end.
-
-Definition is_digit (b : N) : bool := (48 <=? b) && (b <=? 57).
-
-Fixpoint bytes_uint (l : bytes) : uint :=
-  match l with
-  | [] => Nil
-  | b :: r =>
-      let u := bytes_uint r in
-      if b =? 49 then D1 u else if b =? 50 then D2 u else if b =? 51 then D3 u
-      else if b =? 52 then D4 u else if b =? 53 then D5 u else if b =? 54 then D6 u
-      else if b =? 55 then D7 u else if b =? 56 then D8 u else if b =? 57 then D9 u
-      else D0 u
-  end.
-
-Definition dec_of_N (n : N) : bytes := uint_bytes (N.to_uint n).
-Definition N_of_dec (l : bytes) : N := N.of_uint (bytes_uint l).
-
-(* strconv.FormatInt(z, 10) *)
-Definition enc_int (z : Z) : bytes :=
-  match z with
-  | Z0 => [48]
-  | Zpos p => dec_of_N (Npos p)
-  | Zneg p => 45 :: dec_of_N (Npos p)
-  end.
 
 (* ---------- UTF-8 (utf8.DecodeRune: 0 = invalid, else the width) ---------- *)
 
@@ -401,6 +330,93 @@ Fixpoint utf8_valid (fuel : nat) (s : bytes) : bool :=
              | n => utf8_valid f (skipn n s)
              end
       end
+  end.
+
+Definition eval_atom (c : config) (a : atom) : bool :=
+  match a with
+  | ALe f o => (get_int f c <=? eval_operand c o)%Z
+  | AGe f o => (get_int f c >=? eval_operand c o)%Z
+  | AGt f o => (get_int f c >? eval_operand c o)%Z
+  | AEmpty f => is_nil (get_str f c)
+  | ANotUtf8 f => negb (utf8_valid (length (get_str f c)) (get_str f c))
+  | AFloatNotGt1 _ => negb (f_gt1 (c_compaction_ratio c))
+  | AFloatIsInf _ => f_isinf (c_compaction_ratio c)
+  end.
+
+Definition MaxMemTablesLimit : Z := 65536%Z.
+Definition MaxIntervalSeconds : Z := 9223372036%Z.     (* math.MaxInt64 / int64(time.Second) *)
+
+(* Config.Validate: one entry per `if a1 || a2 { return error }`, in source order *)
+Definition checks : list (list atom) :=
+  [ [ALe F_version (OLit 0)];
+    [AEmpty F_wal_dir];
+    [AEmpty F_sst_dir];
+    [ANotUtf8 F_wal_dir];
+    [ANotUtf8 F_sst_dir];
+    [ALe F_memtable_size (OLit 0)];
+    [ALe F_max_memtables (OLit 0)];
+    [AGt F_max_memtables (OLit MaxMemTablesLimit)];
+    [ALe F_sstable_block_size (OLit 0)];
+    [ALe F_sstable_index_size (OLit 0)];
+    [ALe F_compaction_levels (OLit 0)];
+    [AFloatNotGt1 F_compaction_ratio; AFloatIsInf F_compaction_ratio];
+    [AGt F_compaction_interval (OLit MaxIntervalSeconds)];
+    [ALe F_read_only_tx_ttl (OLit 0)];
+    [ALe F_read_write_tx_ttl (OLit 0)];
+    [ALe F_idle_tx_timeout (OLit 0)];
+    [ALe F_tx_cleanup_interval (OLit 0)];
+    [ALe F_tx_warning_threshold (OLit 0); AGe F_tx_warning_threshold (OLit 100)];
+    [ALe F_tx_critical_threshold (OFld F_tx_warning_threshold); AGe F_tx_critical_threshold (OLit 100)] ].
+
+Definition atom_field (a : atom) : fld :=
+  match a with ALe f _ | AGe f _ | AGt f _ | AEmpty f | ANotUtf8 f | AFloatNotGt1 f | AFloatIsInf f => f end.
+
+(* the failing check is identified by the field its first comparison talks about *)
+Fixpoint first_failing (c : config) (l : list (list atom)) : option fld :=
+  match l with
+  | [] => None
+  | ck :: r =>
+      if existsb (eval_atom c) ck
+      then match ck with a :: _ => Some (atom_field a) | [] => None end
+      else first_failing c r
+  end.
+
+(* None = valid; Some f = "invalid configuration", the check on field f failed *)
+Definition validate (c : config) : option fld := first_failing c checks.
+
+(* ---------- decimal integers ---------- *)
+
+Fixpoint uint_bytes (d : uint) : bytes :=
+  match d with
+  | Nil => []
+  | D0 r => 48 :: uint_bytes r | D1 r => 49 :: uint_bytes r | D2 r => 50 :: uint_bytes r
+  | D3 r => 51 :: uint_bytes r | D4 r => 52 :: uint_bytes r | D5 r => 53 :: uint_bytes r
+  | D6 r => 54 :: uint_bytes r | D7 r => 55 :: uint_bytes r | D8 r => 56 :: uint_bytes r
+  | D9 r => 57 :: uint_bytes r
+  end.
+
+Definition is_digit (b : N) : bool := (48 <=? b) && (b <=? 57).
+
+Fixpoint bytes_uint (l : bytes) : uint :=
+  match l with
+  | [] => Nil
+  | b :: r =>
+      let u := bytes_uint r in
+      if b =? 49 then D1 u else if b =? 50 then D2 u else if b =? 51 then D3 u
+      else if b =? 52 then D4 u else if b =? 53 then D5 u else if b =? 54 then D6 u
+      else if b =? 55 then D7 u else if b =? 56 then D8 u else if b =? 57 then D9 u
+      else D0 u
+  end.
+
+Definition dec_of_N (n : N) : bytes := uint_bytes (N.to_uint n).
+Definition N_of_dec (l : bytes) : N := N.of_uint (bytes_uint l).
+
+(* strconv.FormatInt(z, 10) *)
+Definition enc_int (z : Z) : bytes :=
+  match z with
+  | Z0 => [48]
+  | Zpos p => dec_of_N (Npos p)
+  | Zneg p => 45 :: dec_of_N (Npos p)
   end.
 
 (* ---------- JSON text of a string (encoding/json appendString, escapeHTML = true) ---------- *)
@@ -835,14 +851,10 @@ Definition float_okb (f : fval) : bool :=
   | None => false
   end.
 
-(* guard of the round-trip theorem: what the Go types and the float assumption provide, plus
-   directory names that are valid UTF-8 (encoding/json replaces invalid bytes by U+FFFD:
-   see C20_invalid_utf8_refuted) *)
+(* guard of the round-trip theorem: what the Go types and the float assumption provide
+   (valid UTF-8 directory names and a finite ratio are now enforced by Validate itself) *)
 Definition storable (c : config) : bool :=
-  in_range c &&
-  utf8_valid (length (c_wal_dir c)) (c_wal_dir c) &&
-  utf8_valid (length (c_sst_dir c)) (c_sst_dir c) &&
-  float_okb (c_compaction_ratio c).
+  in_range c && float_okb (c_compaction_ratio c).
 
 (* one object member stored into the struct; the flag records a saved UnmarshalTypeError *)
 Definition apply_member (st : config * bool) (kv : bytes * jv) : config * bool :=
@@ -872,6 +884,7 @@ Definition decode (v : jv) : config * bool :=
 
 Inductive cerr :=
   | ENotFound                  (* ErrManifestNotFound *)
+  | ENotFoundNonEmpty          (* ErrManifestNotFound in a directory that already holds files *)
   | EInvalidManifest           (* ErrInvalidManifest: not JSON, or not this struct *)
   | EInvalidConfig (f : fld)   (* ErrInvalidConfig from Validate *)
   | EMarshal.                  (* json: unsupported value (NaN, Inf) *)
@@ -924,16 +937,20 @@ Definition save (c : config) (d : dirst) : result unit * dirst :=
       end
   end.
 
-(* NewEngineFacade up to the point where the configuration is fixed *)
+(* NewEngineFacade up to the point where the configuration is fixed.  A directory without a
+   manifest is a new database only if it holds nothing else (a left-over MANIFEST.tmp of an
+   interrupted first save is tolerated). *)
 Definition open_db (dflt : config) (d : dirst) : result config * dirst :=
   let d1 := mkdir d in
   match load d1 with
   | Ok c => (Ok c, d1)
   | Err ENotFound =>
-      match save dflt d1 with
-      | (Ok _, d2) => (Ok dflt, d2)
-      | (Err e, d2) => (Err e, d2)
-      end
+      if is_nil (d_other d1) then
+        match save dflt d1 with
+        | (Ok _, d2) => (Ok dflt, d2)
+        | (Err e, d2) => (Err e, d2)
+        end
+      else (Err ENotFoundNonEmpty, d1)
   | Err e => (Err e, d1)
   end.
 
